@@ -45,6 +45,21 @@ def _cases(draw, tier):
         if mp == 'spa':
             v.update(n3=draw(st.sampled_from([1, 2])), luq=n1)
         return {'v': v, 'prior': None}
+    if 3 <= k < 13:
+        # hundreds of short lists over a pool at least ten times as long, heavy skew: whatever
+        # way such lists are drawn, nobody may be ranked twice
+        mp = draw(st.sampled_from(['hr', 'hr', 'spa', 'sm']))
+        n1 = draw(st.sampled_from([300, 400, 600]))
+        L = draw(st.sampled_from([3, 4, 6]))
+        v = {'mp': mp, 'numinst': 1, 'n1': n1, 'pmin': 3, 'pmax': L, 'twopl': True,
+             'skew': draw(st.sampled_from([50.0, 50.0, 10.0, 200.0])), 'seed': uni(draw, 0, 9999)}
+        if mp != 'sm':
+            v['n2'] = draw(st.sampled_from([10 * L, 10 * L + 5, 20 * L]))
+            v['uq'] = max(n1, v['n2'])
+        if mp == 'spa':
+            v['n3'] = draw(st.sampled_from([3, 10]))
+            v['luq'] = n1
+        return {'v': v, 'prior': None}
     if k < 3:
         # hundreds of first-side agents, few second-side ones (id widths, wrap-around)
         mp = draw(st.sampled_from(['hr', 'spa', 'sm']))
